@@ -39,10 +39,10 @@ PROP = dict(
     jobs=dict(
         quick=[
             job("htlcswitch", "^TestVerifC09(RefVectors|Pinned)$", [_VEC, "TestVerifC09Pinned"], 1, shards=1),
-            job("htlcswitch", "^TestVerifC09Forward$", [_FWD], 50000, shards=8),
-            job("htlcswitch", "^TestVerifC09Transit$", [_TRN], 25000, shards=4),
-            job("htlcswitch", "^TestVerifC09Switch$", [_SW], 15000, shards=4),
-            job("htlcswitch", "^TestVerifC09LinkInputs$", [_IN], 10000, shards=4),
+            job("htlcswitch", "^TestVerifC09Forward$", [_FWD], 100000, shards=8),
+            job("htlcswitch", "^TestVerifC09Transit$", [_TRN], 50000, shards=4),
+            job("htlcswitch", "^TestVerifC09Switch$", [_SW], 30000, shards=4),
+            job("htlcswitch", "^TestVerifC09LinkInputs$", [_IN], 20000, shards=4),
         ],
         thorough=[
             job("htlcswitch", "^TestVerifC09(RefVectors|Pinned)$", [_VEC, "TestVerifC09Pinned"], 1, shards=1),
